@@ -56,6 +56,18 @@ def run(chk):
         chk.evaluations += 1
         if found > 3:
             break
+    for fam in ('Hill', 'Shekel'):      # all 1000 + 1000 rows: numpy scan for a point below the declared optimum value, confirmed with the real Calculate
+        try:
+            hits, nrows = B.scan_all_rows(fam)
+        except Exception as e:  # noqa
+            chk.obligation('scan of all %s rows' % fam, False, '%s: %s' % (type(e).__name__, str(e)[:200])); continue
+        chk.evaluations += nrows
+        for k, msg, wit in [h for h in hits if 'minimum' in h[1]][:3]:
+            pb = B.problem(fam, k=k)
+            v = float(pb.knownOptimum[0].functionValues[0].value)
+            if B.calc(pb, wit['point']) < v - 2e-3 * max(1.0, abs(v)):
+                found += chk.violation('optimum', '%s(%d): f(%r) = %r is lower than the declared optimum %r by more than 2e-3*max(1,|f*|)' % (fam, k, wit['point'][0], B.calc(pb, wit['point']), v),
+                                       {'kind': 'instance', 'family': fam, 'k': k, 'witness': wit})
     found += strongin_feasible_search(chk)
     found += other_families(chk, rng, thorough)
     if not found:
